@@ -99,6 +99,10 @@ def used_then_deformed_differs(cfg, Hr, LX, LZ):
                           ('logicals_z', LZ, c2.logicals_z)):
         if gf2.rows_of(got) != want:
             out.append(nm)
+    fresh = common.make_code(cfg)
+    for nm in ('n', 'k', 'd', 'is_css'):
+        if getattr(c2, nm) != getattr(fresh, nm):
+            out.append(nm)
     return out
 
 
@@ -222,7 +226,7 @@ def worker(cfg, tier='quick'):
         bad_u = used_then_deformed_differs(cfg, Hr, LX, LZ)
         col.record('C01/object-used-before-deform-has-the-verified-matrices', 'sat' if bad_u else 'unsat',
                    0, False, dict(used_then_deformed=bad_u) if bad_u else None,
-                   'ground: H, logicals_x, logicals_z of (construct; read k, d, H, Hx, logicals; deform) equal '
+                   'ground: H, logicals_x, logicals_z, n, k, d, is_css of (construct; read k, d, H, Hx, logicals; deform) equal '
                    'those of (construct; deform)')
 
     # (iv) rank(H) = n - k.  Certificate (independent elimination) ...
